@@ -64,7 +64,13 @@ class C05(FCheck):
         if not srcs:
             ops.append(gen.f_op("src/f0", 100, pat=3))
             srcs = ["src/f0"]
-        inv = gen.mk_inv(srcs, "dst", driver=driver, workers=workers, block_size=bs, **flags)
+        dest = "dst"
+        if r.random() < 0.15:
+            # cross-device copy: copy_file_range and FICLONE fail with the real kernel's EXDEV
+            ops = [o for o in ops if not o["p"].startswith("dst")]
+            ops += [gen.mount_op("vol"), gen.d_op("vol/dst")]
+            dest = "vol/dst"
+        inv = gen.mk_inv(srcs, dest, driver=driver, workers=workers, block_size=bs, **flags)
         case = {"setup": ops, "steps": [{"inv": inv}], "kernel": kernel, "max_events": 400000}
         if fb:
             case["bin"] = "xcp-fallback"
